@@ -455,8 +455,10 @@ func loadChunk(l *Lexer, recordLen uint64) error {
 		// LZ4 chunks may have some crc data at the end that is not required to
 		// fill a buffer, meaning the ReadFull call above does not consume it.
 		// Therefore we have to do an empty read. If we get any data out of
-		// this, it's an error.
-		if compression == CompressionLZ4 {
+		// this, it's an error. The same goes for zstd: the frame of an empty
+		// chunk is not consumed by reading zero bytes, and the records that
+		// follow the chunk would be read from the middle of it.
+		if compression == CompressionLZ4 || compression == CompressionZSTD {
 			extraBytes, err := io.ReadAll(l.reader)
 			if err != nil {
 				return fmt.Errorf("failed to read extra bytes: %w", err)
